@@ -215,8 +215,14 @@ class C06:
         rep.check("C06.R5", "load|_loading", f, pth is None, "_loading = True precedes the construction of loaded entries",
                   "loaded entries are constructed without _loading: deserialisation re-indexes and dirties through updated()", witness=describe_path(pth) if pth else None)
         stores = {"_oids": False, "_paths": False}
-        side_loops = [n for n in ctx.own_nodes(f) if isinstance(n, ast.For) and pat.match("[LOCAL, REMOTE]", n.iter) is not None or
-                      isinstance(n, ast.For) and pat.match("(LOCAL, REMOTE)", n.iter) is not None]
+        # the loading code, and the private helpers it hands a loaded entry to (`self._index_loaded_entry(ent)`)
+        fs_ = [f]
+        for n in ctx.own_nodes(f):
+            if isinstance(n, ast.Call) and isinstance(n.func, ast.Attribute) and isinstance(n.func.value, ast.Name) and n.func.value.id == f.self_name and n.func.attr.startswith("_"):
+                h = self.state.methods.get(n.func.attr)
+                if h is not None and h not in fs_ and {s_.func.qname for s_ in ctx.callers(h)} == {f.qname}:
+                    fs_.append(h)
+        side_loops = [n for ff in fs_ for n in ctx.own_nodes(ff) if isinstance(n, ast.For) and (pat.match("[LOCAL, REMOTE]", n.iter) is not None or pat.match("(LOCAL, REMOTE)", n.iter) is not None)]
         for lp in side_loops:
             sv = lp.target.id if isinstance(lp.target, ast.Name) else None
             for x in ast.walk(lp):
@@ -228,16 +234,16 @@ class C06:
                         stores["_paths"] = True
         rep.check("C06.R5", "load|indexes", f, all(stores.values()), "both indexes rebuilt for both sides",
                   "the load loop no longer rebuilds %s for both sides" % [k for k, v in stores.items() if not v])
-        adds = [n for n in ctx.own_nodes(f) if isinstance(n, ast.Call) and pat.match("self._changeset_storage.add($E)", n) is not None]
+        adds = [(ff, n) for ff in fs_ for n in ctx.own_nodes(ff) if isinstance(n, ast.Call) and pat.match("self._changeset_storage.add($E)", n) is not None]
         good = bool(adds)
-        for a in adds:
-            facts = ctx.facts_at(f, a)
+        for ff, a in adds:
+            facts = ctx.facts_at(ff, a)
             m = pat.match("self._changeset_storage.add($E)", a)
             ent = ast.unparse(m["E"])
             good = good and has_fact(facts, "%s[$S].changed" % ent, True)
         rep.check("C06.R5", "load|pending", f, good, "pending set rebuilt from the persisted `changed` flag",
                   "the pending set is not rebuilt from the entries' `changed` flag (facts at the add: %s): a change that was recorded but not yet "
-                  "examined by the sync step is forgotten by a restart" % [sorted(ctx.facts_at(f, a)) for a in adds])
+                  "examined by the sync step is forgotten by a restart" % [sorted(ctx.facts_at(ff, a)) for ff, a in adds])
         lo = [n for n in g.nodes if node_stores_attr(n, "_loading", "False")]
         rep.check("C06.R5", "load|_loading-reset", f, bool(lo), "_loading reset after the loop", "_loading is never reset after loading", nontrivial=False)
 
@@ -304,3 +310,9 @@ def run(ctx: Ctx, rep: Report, tier: str):
     alias(rep, ["C08.R6"], "C06.R7", "entries applied by the walk / by events are durable before the walk marker or cursor that vouches for them is written: "
           "_process_event commits before it returns (C08.R6), so the marker write that follows the walk loop never outruns the entries", 1,
           lambda: C08(ctx, rep).r6(), keep=lambda i: "_process_event" in i.key)
+    from rules.common import data_rows_follow_storage, first_init_completes_before_flag
+    rep.rule("C06.R8", "cursor / walk-marker rows are managed from what storage holds: storage_delete_tag deletes every row read_all(tag) returns (not only a "
+             "cached id), storage_update_data looks the tag up in storage before choosing update or create", 2)
+    data_rows_follow_storage(ctx, rep, "C06.R8")
+    rep.rule("C06.R9", "the first step after a (re)start is repeated until it completed: _do_first_init clears _first_do after its last provider / state call", 1)
+    first_init_completes_before_flag(ctx, rep, "C06.R9")
